@@ -11,6 +11,7 @@ import FrappyProofs.Lemmas.CommStateTrue
 import FrappyProofs.Lemmas.CommCallbacksIdent
 import FrappyProofs.Lemmas.CommTimeoutAll
 import FrappyProofs.Lemmas.CommGlue
+import FrappyProofs.Lemmas.CommWait
 import FrappyModel.Generated.C16
 /-
 C16 — property theorems (nothing but property theorems and their non-vacuity examples).
@@ -1657,10 +1658,95 @@ terminator is sent; and with a terminator that overlaps itself a line may swallo
 example : sendPlan 1 [13] [65, 13] = [[65, 13], [13]] ∧
     sendPlan 1 [97, 97] [97, 97, 97] = [[97, 97], [97, 97, 97]] ∧ oneLineB [97, 97] [97, 97, 97] = false := by decide
 
-/-- the clause for the transaction model (which sends the requests it is given, one send each): the pause.  Step level:
-`delays_honoured_partial_sleep` / `_wake` (the sleep before the flush is `wait_before` long and the caller goes on only
-when it is over) and `wait_before_partial` below; the run-level invariant is not proved (gap) -/
+/-- the clause for the transaction model (which sends the requests it is given, one send each): the pause -/
 def wait_before_paced_statement : Prop := ∀ cfg cbs evs, Accepted cfg cbs evs → pacedB cfg.waitBefore evs = true
+
+/-- event form: in every accepted run (any configuration, identification included), with `wait_before ≠ 0`, every send —
+of a command or of an identification request — at position q by caller c is preceded by a sleep of c of `wait_before`
+that began at least that much earlier, with no send of c in between (invariant `WbInv`, `Lemmas/CommWait.lean`) -/
+theorem wait_before_paced_run (cfg : Cfg) (cbs : List Nat) (evs : List TEv) (hacc : Accepted cfg cbs evs)
+    (hw : cfg.waitBefore ≠ 0) (q c : Nat) (hq : sendLikeAt evs q = some c) :
+    ∃ p, p < q ∧ evAt evs p = some (.slp c cfg.waitBefore) ∧ timeAt evs p + cfg.waitBefore ≤ timeAt evs q ∧
+      ∀ m, p < m → m < q → sendLikeAt evs m ≠ some c := by
+  unfold Accepted at hacc
+  cases hex : exec { cfg := cfg, cbsReg := cbs } evs with
+  | none => simp [hex] at hacc
+  | some sf =>
+    have hsome : ∃ e, evs[q]? = some e := by
+      cases hge : evs[q]? with
+      | none => simp [sendLikeAt, evAt, hge] at hq
+      | some e => exact ⟨e, rfl⟩
+    obtain ⟨e, he⟩ := hsome
+    obtain ⟨sk, sk', hpre, hst⟩ := exec_cut _ evs q e he sf hex
+    have hi := wbinv_exec cfg cbs (evs.take q) sk hw hpre
+    have hqlt : q < evs.length := by
+      false_or_by_contra; rename_i hn
+      rw [List.getElem?_eq_none (by omega)] at he; simp at he
+    have hev : evAt evs q = some e.ev := by simp [evAt, he]
+    have hsl : sendLikeEv e.ev = true ∧ e.ev.who = some c := by
+      rw [sendLikeAt_eq, hev] at hq
+      simp only [Option.bind_some] at hq
+      split at hq
+      · next h1 => exact ⟨h1, hq⟩
+      · simp at hq
+    have hclk : sk.clock ≤ e.t := by
+      unfold step at hst; split at hst
+      · simp at hst
+      · omega
+    rw [step_caller_form sk e c hsl.2] at hst
+    split at hst
+    · simp at hst
+    · have hr := step_send_rested _ sk' e.t c e.ev hst hsl.1
+      obtain ⟨T, hT, p, hp, hpev, hpt, hno⟩ := hi.rs c hr
+      simp only [List.length_take] at hp
+      have hpq : p < q := by omega
+      refine ⟨p, hpq, by rw [← evAt_take evs q p hpq]; exact hpev, ?_, ?_⟩
+      · rw [timeAt_take evs q p hpq] at hpt
+        have : timeAt evs q = e.t := by simp [timeAt, he]
+        omega
+      · intro m h1 h2
+        have := hno m h1 (by simp only [List.length_take]; omega)
+        unfold sendLikeAt at this ⊢
+        rwa [evAt_take evs q m h2] at this
+
+/-- **the pause clause in the form of the monitor**, for every accepted run of the transaction model -/
+theorem wait_before_paced : wait_before_paced_statement := by
+  intro cfg cbs evs hacc
+  unfold pacedB waitBeforeHonouredB
+  by_cases hw : cfg.waitBefore = 0
+  · simp [hw]
+  · simp only [Bool.or_eq_true, beq_iff_eq, hw, false_or, allBelow, List.all_eq_true, List.mem_range]
+    intro q _
+    cases hd : sendLikeData evs q with
+    | none => rfl
+    | some cd =>
+      obtain ⟨c, data⟩ := cd
+      have hq : sendLikeAt evs q = some c := by
+        unfold sendLikeData at hd; unfold sendLikeAt
+        cases hev : evAt evs q with
+        | none => simp [hev] at hd
+        | some ev => cases ev <;> simp [hev] at hd ⊢ <;> exact hd.1
+      obtain ⟨p, hpq, hpev, hpt, hno⟩ := wait_before_paced_run cfg cbs evs hacc hw q c hq
+      simp only [oneLineB, List.isEmpty_nil, Bool.true_or, Bool.true_and, List.any_eq_true, List.mem_range]
+      refine ⟨p, hpq, ?_⟩
+      simp only [hpev, beq_self_eq_true, Nat.le_refl, decide_true, Bool.true_and, Bool.and_eq_true, decide_eq_true_eq]
+      refine ⟨hpt, ?_⟩
+      simp only [allBetween, List.all_eq_true, List.mem_range, Bool.or_eq_true, Bool.not_eq_eq_eq_not, Bool.not_true,
+        decide_eq_false_iff_not, beq_eq_false_iff_ne]
+      intro m hm
+      by_cases hpm : p < m
+      · exact Or.inr (hno m hpm hm)
+      · exact Or.inl hpm
+
+/-- non-vacuity: an accepted run with `wait_before` 0.05 s — the send comes 0.05 s after the sleep began -/
+def pacedCfg : Cfg := { findingCfgA with waitBefore := 50000 }
+def pacedRun : List TEv := [
+  ⟨0, .call 1 .poll []⟩, ⟨1, .now 1 1⟩, ⟨1, .connect 1 true false⟩, ⟨2, .isconn 1 true⟩, ⟨3, .ret 1 (.ok [])⟩,
+  ⟨10, .call 1 .comm [⟨[65, 10], true, 0, 0⟩]⟩, ⟨11, .chk 1 true⟩, ⟨12, .acq 1⟩, ⟨13, .slp 1 50000⟩, ⟨50013, .wake 1⟩,
+  ⟨50014, .flush 1⟩, ⟨50015, .send 1 0 0 [65, 10]⟩]
+example : Accepted pacedCfg [] pacedRun ∧ pacedCfg.waitBefore ≠ 0 ∧ sendLikeAt pacedRun 11 = some 1 ∧
+    pacedB pacedCfg.waitBefore pacedRun = true ∧ pacedB pacedCfg.waitBefore (pacedRun.eraseIdx 8) = false := by
+  unfold Accepted; decide
 
 /-- with `wait_before ≠ 0` a caller that has taken the inner lock of communicate sleeps first (the flush and the send
 come after `slp wait_before` … `wake`, see `delays_honoured_partial_sleep` / `_wake`) -/
